@@ -152,7 +152,16 @@ func planDuplication(m *Module, base map[string][]byte) (map[string][]byte, int)
 		for _, obj := range order {
 			h := helpers[obj]
 			name := h.decl.Name.Name
-			if h.bad || anchorObjs[obj] || token.IsExported(name) || name == "init" || name == "main" || name == "_" {
+			exported := token.IsExported(name)
+			if exported && h.decl.Recv != nil {
+				// an exported method of an unexported type names nothing outside the package
+				if sig, ok := obj.Type().(*types.Signature); ok && sig.Recv() != nil {
+					if n, ok := derefNamed(sig.Recv().Type()); ok && !token.IsExported(n.Obj().Name()) {
+						exported = false
+					}
+				}
+			}
+			if h.bad || anchorObjs[obj] || exported || name == "init" || name == "main" || name == "_" {
 				continue
 			}
 			if len(h.sites) < 2 || len(h.sites) > dupMaxSites || h.decl.Type.TypeParams != nil {
@@ -169,7 +178,7 @@ func planDuplication(m *Module, base map[string][]byte) (map[string][]byte, int)
 			nst, ok := 0, true
 			ast.Inspect(h.decl.Body, func(n ast.Node) bool {
 				switch x := n.(type) {
-				case *ast.FuncLit, *ast.DeferStmt, *ast.GoStmt:
+				case *ast.DeferStmt, *ast.GoStmt:
 					ok = false
 				case ast.Stmt:
 					nst++
